@@ -83,6 +83,16 @@ type ST3 struct {
 	Z    uintptr
 }
 
+// ST4 embeds text-unmarshalable structs (atomic leaves that happen to be
+// embedded) by value and by pointer; only the compiler can make such a type.
+type ST4 struct {
+	Before int
+	shape.Stamp
+	Mid []string
+	*shape.Tagged
+	After string
+}
+
 type staticType struct {
 	name string
 	t    reflect.Type
@@ -96,6 +106,7 @@ func init() {
 		{"ST1", reflect.TypeOf(ST1{}), runStatic[ST1]},
 		{"ST2", reflect.TypeOf(ST2{}), runStatic[ST2]},
 		{"ST3", reflect.TypeOf(ST3{}), runStatic[ST3]},
+		{"ST4", reflect.TypeOf(ST4{}), runStatic[ST4]},
 	}
 }
 
